@@ -185,6 +185,10 @@ def _patterns(rng, P, L):
 
 
 def correspond(ctx, corr, model_ok):
+    corr.oracle_failures.extend(busy_sender_oracle())
+    corr.oracle_failures.extend(peer_probes_oracle())
+    corr.count('keepalive while a long fragmented frame is being written on a slow link', 3)
+    corr.count('server probing on its own without acknowledging', 2)
     rng = ctx.rng
     items = []
     # ---- echo
@@ -259,6 +263,10 @@ def search(ctx, budget_s):
 
 
 def replay(obj):
+    if 'busy_case' in (obj.get('case') or {}):
+        return bool(busy_sender_oracle())
+    if 'probe_case' in (obj.get('case') or {}):
+        return bool(peer_probes_oracle())
     import ast
     case = obj['case']
     if case['kind'] == 'echo':
@@ -283,3 +291,119 @@ def replay(obj):
                 print('oracle:', o)
                 return True
     return False
+
+
+# ---------------------------------------------------------------------------------------------
+# (c) periodic emission while the sender is busy with a long fragmented frame on a slow link
+
+def run_busy_sender(P_us, n_bytes, per_frame_us, lenreq):
+    from rsocket.rsocket_client import RSocketClient
+    from rsocket.helpers import single_transport_provider
+    from rsocket.payload import Payload
+    loop = sim.new_loop()
+    sim.patch_clock(loop)
+    T = sim.make_transport_class()
+    t = T(lenreq=lenreq)
+    box = {}
+    try:
+        def mk():
+            box['c'] = RSocketClient(single_transport_provider(t), keep_alive_period=timedelta(microseconds=P_us),
+                                     max_lifetime_period=timedelta(microseconds=1000 * P_us), fragment_size_bytes=64)
+            asyncio.create_task(box['c'].connect())
+        loop.run(mk)
+        loop.settle()
+        c = box['c']
+        t0 = us(loop.time())
+        t.gated = True
+        loop.run(lambda: c.fire_and_forget(Payload(b'x' * n_bytes)))
+        stamps = []      # (time_us, frame type) of everything written
+        seen = len(t.sent)
+        for _ in range(200000):
+            t.permit(1)
+            loop.settle()
+            while seen < len(t.sent):
+                stamps.append((us(loop.time()) - t0, sim.parse_sent(t.sent[seen])['t']))
+                seen += 1
+            if c._send_queue.empty() and t._permits > 0:
+                break
+            loop.run_until(loop.time() + per_frame_us / US)
+            while seen < len(t.sent):
+                stamps.append((us(loop.time()) - t0, sim.parse_sent(t.sent[seen])['t']))
+                seen += 1
+        return stamps
+    finally:
+        loop.finish()
+
+
+def busy_sender_oracle():
+    out = []
+    for (P, n, per, lenreq) in ((1000000, 16000, 10000, True), (500000, 8000, 20000, False), (300000, 6000, 7000, True)):
+        st = run_busy_sender(P, n, per, lenreq)
+        if not st:
+            out.append({'what': 'busy sender: nothing written', 'busy_case': [P, n, per, lenreq]})
+            continue
+        end = st[-1][0]
+        kas = [x[0] for x in st if x[1] == 'Keepalive']
+        ticks = [k * P for k in range(1, end // P + 1)]
+        missing = [tk for tk in ticks if not any(tk <= k <= tk + 3 * per + 1000 for k in kas)]
+        if missing:
+            out.append({'what': 'no KEEPALIVE written around %d of %d period ticks while a fragmented frame was being sent '
+                                '(first missing tick at %d us, transfer lasted %d us)' % (len(missing), len(ticks), missing[0], end),
+                        'busy_case': [P, n, per, lenreq]})
+    return out
+
+
+# (d) a server that probes on its own (respond-flagged KEEPALIVEs) but never acknowledges ours: its probes are signs of life
+def run_peer_probes(P_us, L_us, every_us, until_us, horizon_us):
+    from rsocket.rsocket_client import RSocketClient
+    from rsocket.request_handler import BaseRequestHandler
+    from rsocket.helpers import single_transport_provider
+    from rsocket.frame import KeepAliveFrame
+    loop = sim.new_loop()
+    sim.patch_clock(loop)
+    T = sim.make_transport_class()
+    t = T(lenreq=False)
+    touts = []
+
+    class H(BaseRequestHandler):
+        async def on_keepalive_timeout(self, since, rsocket):
+            touts.append(us(loop.time()))
+    box = {}
+    try:
+        def mk():
+            box['c'] = RSocketClient(single_transport_provider(t), handler_factory=H,
+                                     keep_alive_period=timedelta(microseconds=P_us),
+                                     max_lifetime_period=timedelta(microseconds=L_us))
+            asyncio.create_task(box['c'].connect())
+        loop.run(mk)
+        loop.settle()
+        t0 = us(loop.time())
+        sent = 0
+        nxt = every_us + 137
+        while nxt <= until_us:
+            loop.run_until((t0 + nxt) / US)
+            if touts:
+                break
+            ka = KeepAliveFrame()
+            ka.flags_respond = True
+            ka.data = b'p%d' % sent
+            t.inject_frame(ka.serialize())
+            loop.settle()
+            sent += 1
+            nxt += every_us
+        loop.run_until((t0 + horizon_us) / US)
+        echoes = [sim.parse_sent(b) for b in t.sent if sim.parse_sent(b)['t'] == 'Keepalive' and not sim.parse_sent(b)['respond']]
+        return {'probes': sent, 'echoes': len(echoes), 'timeouts': [x - t0 for x in touts], 'last_probe': nxt - every_us}
+    finally:
+        loop.finish()
+
+
+def peer_probes_oracle():
+    out = []
+    for (P, L, every, until, horizon) in ((1000000, 3000000, 2000000, 30500000, 45000000),
+                                          (500000, 2000000, 1500000, 12000000, 20000000)):
+        r = run_peer_probes(P, L, every, until, horizon)
+        early = [x for x in r['timeouts'] if x <= r['last_probe'] + L]
+        if early or r['echoes'] != r['probes'] or not r['timeouts']:
+            out.append({'what': 'server-originated KEEPALIVEs: %r' % (r,), 'probe_case': [P, L, every, until, horizon]})
+    return out
